@@ -104,6 +104,8 @@ def run_tlc(
     os.makedirs(work, exist_ok=True)
     cfgp = cfg if cfg and os.path.isabs(cfg) else os.path.join(spec_dir, cfg or module + ".cfg")
     jopts = ["-XX:+UseParallelGC", "-Xss256m", "-Xmx" + heap, "-DTLA-Library=" + SPEC]
+    if os.environ.get("TMPDIR"):     # TLC unpacks its standard modules into a fresh java temp directory per run: keep it with the run's other scratch
+        jopts.append("-Djava.io.tmpdir=" + os.environ["TMPDIR"])
     if dfs:
         jopts.append("-Dtlc2.tool.queue.IStateQueue=StateDeque")
     cmd = ["java"] + jopts + ["-cp", JAR + ":" + DEPS, "tlc2.TLC"]
